@@ -11,12 +11,20 @@ import json, os, re, shutil, sys, glob
 root = os.path.dirname(os.path.dirname(os.path.abspath(__file__)))
 stag = os.path.join(root, "seeded_staging")
 out = os.path.join(root, "seeded")
+ROUNDS = [("seeded_staging", "seed_confirm.jsonl", {"a": "a", "b": "b", "c": "c"}, 1),
+          ("seeded_staging2", "seed_confirm2.jsonl", {"a": "d", "b": "e", "c": "f"}, 2)]
 confirm = {}
-for l in open(os.path.join(root, "tools", "seed_confirm.jsonl")):
-    l = l.strip()
-    if l:
-        d = json.loads(l)
-        confirm[d["seed"]] = d
+for stg, cf, letters, rnd in ROUNDS:
+    path = os.path.join(root, "tools", cf)
+    if not os.path.exists(path):
+        continue
+    for l in open(path):
+        l = l.strip()
+        if l:
+            d = json.loads(l)
+            pid, x = d["seed"].split("/")
+            d["seed"] = pid + "/" + letters[x]
+            confirm[d["seed"]] = d
 detect = json.load(open(os.path.join(root, "tools", "seed_detect.json")))
 
 
@@ -32,16 +40,20 @@ def para(text, pat):
     return " ".join(x.strip() for x in p.splitlines())
 
 
-for d in sorted(glob.glob(os.path.join(stag, "C*", "?"))):
-    pid, x = d.split(os.sep)[-2:]
+dirs = []
+for stg, cf, letters, rnd in ROUNDS:
+    for d in sorted(glob.glob(os.path.join(root, stg, "C*", "?"))):
+        pid, x = d.split(os.sep)[-2:]
+        dirs.append((d, pid, letters[x], rnd))
+for d, pid, x, rnd in dirs:
     key = pid + "/" + x
     dst = os.path.join(out, pid, x)
     os.makedirs(dst, exist_ok=True)
     demo = ""
     for f in os.listdir(d):
-        if f in ("patch.diff", "notes.md") or f.startswith("zz_seed_"):
+        if f in ("patch.diff", "notes.md") or f.startswith("zz_seed"):
             shutil.copy(os.path.join(d, f), os.path.join(dst, f))
-            if f.startswith("zz_seed_"):
+            if f.startswith("zz_seed"):
                 demo = f
     notes = open(os.path.join(d, "notes.md")).read()
     title = notes.splitlines()[0].lstrip("# ").strip()
@@ -49,6 +61,7 @@ for d in sorted(glob.glob(os.path.join(stag, "C*", "?"))):
     det = detect.get(key, {})
     meta = {
         "seed": key,
+        "round": rnd,
         "property": pid,
         "title": title,
         "clause_broken": para(notes, r"^[#*\s]*(property |which )?clause (is )?(broken|breaks)"),
